@@ -101,7 +101,7 @@ fn c04_sweep<T: Elem>(st: &mut Stats, args: &Args, lengths: &[usize], planners: 
         // history-aware planning: one planner is first asked for up to three proper divisors of n (ascending, so that
         // they lie on n's radix chain and land in the planner's caches), then for n itself, same and mixed directions
         for &n in lengths {
-            if n < 4 {
+            if n < 4 || n > 16384 {
                 continue;
             }
             let mut rng = Rng::new(mix(&[args.seed, n as u64, pk as u64, 0xD1]));
@@ -701,17 +701,17 @@ pub fn run_c06(args: &Args) {
     let mut st = Stats::new();
     let lengths = crate::shape::lengths_from_args(
         args,
-        if t { 8192 } else { 2048 },
-        if t { 1 << 20 } else { 1 << 18 },
-        if t { 200 } else { 90 },
+        if t { 4096 } else { 2048 },
+        if t { 1 << 19 } else { 1 << 18 },
+        if t { 100 } else { 90 },
         0xC06,
     );
     let mut lengths = lengths;
     // prime sweep: primes are where the special algorithms (Rader, Bluestein) and their number theory live; the round trip
     // is oracle-free, so every prime up to the bound is affordable
     if args.get("only-n").is_none() && args.get("ns").is_none() {
-        let dense_max = args.get_usize("dense-max").unwrap_or(if t { 8192 } else { 2048 });
-        let prime_max = args.get_usize("prime-max").unwrap_or(if t { 65536 } else { 20000 });
+        let dense_max = args.get_usize("dense-max").unwrap_or(if t { 4096 } else { 2048 });
+        let prime_max = args.get_usize("prime-max").unwrap_or(if t { 40000 } else { 20000 });
         let primes: Vec<usize> = (dense_max + 1..=prime_max).filter(|n| crate::cases::is_prime(*n)).collect();
         st.add("primes_in_sweep", primes.iter().enumerate().filter(|(i, _)| crate::cases::mine(*i, args.shard)).count());
         lengths.extend(primes.iter().enumerate().filter(|(i, _)| crate::cases::mine(*i, args.shard)).map(|(_, n)| *n));
